@@ -54,8 +54,10 @@ SEQ_DEPTH = dict(bf=(3, 4), lf=(3, 4), op=(3, 4), eval=(3, 4), mix=(3, 4), prim=
 def seq_unit(dom, mode='exact', name=None, depths=None):
     """E5: call sequences on long-lived objects (seq/callseq.cpp), domain `dom`"""
     dq, dt = depths or SEQ_DEPTH[dom]
-    return unit(name or ('seq-' + dom), 'seq/callseq.cpp', mode, args=['--domain', dom, '--depth', str(dq), '--depth-thorough', str(dt)],
-                flags=['-DVF_QUAD'] if dom == 'quad' else (['-DVF_INTERP', '-I/usr/include/eigen3'] if dom == 'interp' else []))
+    u = unit(name or ('seq-' + dom), 'seq/callseq.cpp', mode, args=['--domain', dom, '--depth', str(dq), '--depth-thorough', str(dt)],
+             flags=['-DVF_QUAD'] if dom == 'quad' else (['-DVF_INTERP', '-I/usr/include/eigen3'] if dom == 'interp' else []))
+    u['bindir'] = 'seq-bin-' + mode + ('-quad' if dom == 'quad' else '-interp' if dom == 'interp' else '')   # one binary for all plain domains
+    return u
 
 
 def seq_filter(cid):
